@@ -99,7 +99,7 @@ def stage_args(stage, params, indir):
     elif stage == 'mapping':
         a['cfg'] = {'chunk_size': params.get('chunk_size', 3), 'n_processors': params['n_processors'], 'bootstrap_iteration': 4, 'bootstrap_factor': 0.8,
                     'n_runners_up': 2, 'min_markers': 2, 'normalization': params.get('normalization', 'raw'), 'rng_seed': 23,
-                    'tmp_dir': True, 'cloud_safe': False, 'max_gb': params.get('max_gb', 1.0)}
+                    'tmp_dir': not params.get('no_tmp', False), 'cloud_safe': False, 'max_gb': params.get('max_gb', 1.0)}
     return a
 
 
@@ -196,18 +196,25 @@ class History(RuleBasedStateMachine):
     # ------------------------------------------------------------ rules
     @rule(stage=st.sampled_from(STAGES), n_processors=st.integers(1, 3), small_budget=st.booleans(),
           gene_subset=st.one_of(st.just([]), st.lists(st.integers(0, 19), min_size=1, max_size=5, unique=True)))
-    def run_ok(self, stage, n_processors, small_budget, gene_subset=()):
+    def run_ok(self, stage, n_processors, small_budget, gene_subset=(), no_tmp=False):
         self.step += 1
         params = {'n_processors': n_processors}
         if stage == 'qmark' and gene_subset:
             params['genes'] = sorted(gene_subset)
         if stage == 'mapping' and small_budget:
             params['max_gb'] = 1e-9
+        if stage == 'mapping' and no_tmp:
+            # no scratch directory given: intermediate results go below the output directory, other temporary
+            # files to the system's temp directory (redirected into the sandbox and watched like the scratch directory)
+            params['no_tmp'] = True
         tag = f's{self.step}'
         what = ['run_ok', stage, params]
         self.trace.append(what)
         sb, ob = listing(self.scratch), listing(self.out)
         a = dict(stage_args(stage, params, self.ind), work=str(self.out), tmp=str(self.scratch), tag=tag)
+        if params.get('no_tmp'):
+            a.pop('tmp')
+            a['harness_tmp'] = str(self.root / 'harness_tmp')
         try:
             got = stage_runner.run_stage(a)
         except Exception as e:
@@ -231,9 +238,9 @@ class History(RuleBasedStateMachine):
     def run_ok_again(self, stage, n_processors, small_budget, gene_subset=()):
         self.run_ok(stage=stage, n_processors=n_processors, small_budget=small_budget, gene_subset=gene_subset)
 
-    @rule(stage=st.sampled_from(STAGES), n_processors=st.integers(1, 3))
-    def run_ok_once_more(self, stage, n_processors):
-        self.run_ok(stage=stage, n_processors=n_processors, small_budget=False, gene_subset=[])
+    @rule(stage=st.sampled_from(STAGES), n_processors=st.integers(1, 3), no_tmp=st.booleans())
+    def run_ok_once_more(self, stage, n_processors, no_tmp=False):
+        self.run_ok(stage=stage, n_processors=n_processors, small_budget=False, gene_subset=[], no_tmp=no_tmp)
 
     @rule(stage=st.sampled_from(STAGES), worker=st.integers(0, 1), mode=st.sampled_from(['kill', 'exit', 'raise']),
           point=st.sampled_from(['before', 'mid', 'after']), at=st.integers(5, 400))
@@ -554,7 +561,7 @@ def check(spec):
             try:
                 if name == 'run_ok':
                     m.run_ok(stage=step[1], n_processors=step[2]['n_processors'], small_budget='max_gb' in step[2],
-                             gene_subset=step[2].get('genes', []))
+                             gene_subset=step[2].get('genes', []), no_tmp=bool(step[2].get('no_tmp')))
                 elif name == 'run_injected_failure':
                     m.run_injected_failure(stage=step[1], worker=step[2], mode=step[3], point=step[4], at=step[5])
                 elif name == 'run_invalid_mapping':
